@@ -15,7 +15,8 @@ EXTRACTION_DROPS = [
     "type annotations and type comments (annotated assignments keep their value)",
     "calls on the module logger `log.*` / `logging.*` used as statements (arguments not evaluated)",
     "`global` / `nonlocal` declarations, `cast(T, x)` (identity), `# noinspection` comments",
-    "decorators other than @staticmethod/@classmethod/@property/@abstractmethod",
+    "the decorators @staticmethod / @classmethod / @property / @x.setter / @abstractmethod / @functools.wraps (no effect on what a call of the body does); a function whose "
+    "body the proof executes and that carries any other decorator is outside the subset (exit 2)",
 ]
 
 
